@@ -91,7 +91,18 @@ def run(ctx):
       if cn.ast is not None and cn.kind in ('stmt', 'test', 'return', 'raise_stmt') and in_subtree(n, cn.ast):
         fs = facts2[cn.id] if fs is None else (fs & facts2[cn.id])
     return u(expand_expr(fs or frozenset(), key)).replace(' ', '') in ("selector.split('.')[0]", 'attr_names[0]') or \
-        (isinstance(key, ast.Name) and (def_of(fs or frozenset(), key.id) or '').replace(' ', '') == "unpack[0](selector.split('.'))")
+        (isinstance(key, ast.Name) and first_of_split(fs or frozenset(), key.id))
+  def first_of_split(fs, name):
+    d = (def_of(fs, name) or '').replace(' ', '')
+    if not (d.startswith('unpack[0](') and d.endswith(')')):
+      return False
+    inner = d[len('unpack[0]('):-1]
+    if inner == "selector.split('.')":
+      return True
+    try:
+      return u(expand_expr(fs, ast.parse(inner, mode='eval').body)).replace(' ', '') == "selector.split('.')"
+    except SyntaxError:
+      return False
   def on_miss(n):
     fs = facts2[n.id]
     for fct in fs:
